@@ -59,7 +59,8 @@ def exc_isinstance(cls, parent):
   return False
 
 
-SORTS = {'int': z3.IntSort(), 'bool': z3.BoolSort(), 'real': z3.RealSort(), 'obj': Obj}
+SORTS = {'int': z3.IntSort(), 'nat': z3.IntSort(), 'bool': z3.BoolSort(), 'real': z3.RealSort(),
+         'rreal': z3.RealSort(), 'obj': Obj}
 
 
 def sort_of(kind):
@@ -94,6 +95,7 @@ class InterpBase:
     self.ghost = {}              # ghost variables of the function under verification
     self.yield_log = None        # VMList when verifying a generator
     self.events = []             # ghost event log (calls of interest)
+    self.obj_ids = []
 
   # ---- path helpers -----------------------------------------------------------------
   @property
@@ -358,6 +360,14 @@ class InterpBase:
       return none_obj
     if isinstance(v, VExc) and v.sym is not None:
       return v.sym
+    if isinstance(v, VObj):         # heap objects: one identity constant each, pairwise distinct
+      if '__id__' not in v.f:
+        t = z3.Const(self.path.fresh_name(f'id.{v.cls}'), Obj)
+        for other in self.obj_ids:
+          self.assume(t != other)
+        self.obj_ids.append(t)
+        v.f['__id__'] = VOpaque(t)
+      return v.f['__id__'].t
     if isinstance(v, VTuple) and len(v.items) == 2:
       a, b = self.to_obj(v.items[0]), self.to_obj(v.items[1])
       t = mk_pair(a, b)
@@ -369,20 +379,20 @@ class InterpBase:
     raise Unsupported(f'to_obj({type(v).__name__})')
 
   def wrap(self, kind, t):
-    if kind == 'int':
+    if kind in ('int', 'nat'):
       return VInt(t)
     if kind == 'bool':
       return VBool(t)
-    if kind == 'real':
+    if kind in ('real', 'rreal'):
       return VReal(t, False)
     return VOpaque(t)
 
   def unwrap(self, kind, v):
-    if kind == 'int':
+    if kind in ('int', 'nat'):
       return self.to_int(v)
     if kind == 'bool':
       return self.truth(v) if not isinstance(v, VBool) else v.t
-    if kind == 'real':
+    if kind in ('real', 'rreal'):
       return self.to_real(v).t
     return self.to_obj(v)
 
